@@ -59,6 +59,7 @@ CAUSES = [
     ("C07-dcr-overlapping-disjuncts", complib.cause_overlapping_disjuncts),
     ("C07-uin-conditional-effects", complib.cause_undefined_conditional),
     ("C07-static-conflict-coinciding-values", complib.cause_coinciding_values),
+    ("C07-uin-read-simplified-away", complib.cause_undefined_read_simplified_away),
 ]
 
 
